@@ -321,6 +321,25 @@ def write_replay(prop, v):
 def replay(path):
     """Re-runs a replay file through the recorder and the trace specification."""
     d = json.load(open(path))
+    if d["ops"] and d["ops"][0].startswith("STDIN "):
+        # a command-line run: feed the recorded stdin to the real binary again and validate its events
+        from . import cli
+        B.build_cli()
+        data = bytes.fromhex(d["ops"][0][6:])
+        evs = cli.events_of(data)
+        wdir = ensure(os.path.join(WORK, "replay_%d" % os.getpid()))
+        p = os.path.join(wdir, "cli.ndjson")
+        with open(p, "w") as f:
+            for ev in evs:
+                f.write(json.dumps(ev, separators=(",", ":")) + "\n")
+        res = T.validate_trace(p, "std")
+        shutil.rmtree(wdir, ignore_errors=True)
+        fr = FamilyResult("replay", "cli")
+        fr.events = res["events"]
+        fr.nviol = res.get("nviol") or {}
+        fr.viol = [dict(prop=v["prop"], all=v["all"], what=v["what"], build="cli", family="replay", ops=d["ops"], event=None)
+                   for v in res.get("viol", [])]
+        return d, fr, [v for v in fr.viol if d["property"] in v["all"]]
     B.build_recorders((d["build"],))
     sc = Scenario()
     sc.unit()
